@@ -65,20 +65,23 @@ class YMap(YMapBase):
     pass
 
 
+KEY_ATTR = {"NuclideFlags": "nuclideName", "ComponentGroups": "group_name"}  # every other keyed list of armi: `name`
+
+
 class YKeyedList(YMapBase):
-    """yamlize.KeyedList: iterates over the VALUES; `in` tests the KEYS; add(item) files the item under its key attribute
-    (`name` for every keyed list used here)"""
+    """yamlize.KeyedList: iterates over the VALUES; `in` tests the KEYS; an item can only be stored under the value of its
+    key attribute (KEY_ATTR: the `key_attr` each armi class declares); add(item) stores it there"""
 
     def __iter__(self):
         return iter(self.values())
 
     def __setitem__(self, key, value):
-        if value.name != key:
+        if getattr(value, KEY_ATTR.get(type(self).__name__, "name")) != key:
             raise KeyError(key)
         self._d[key] = value
 
     def add(self, item):
-        self[item.name] = item
+        self[getattr(item, KEY_ATTR.get(type(self).__name__, "name"))] = item
 
 
 class YInert:
@@ -115,7 +118,14 @@ def ymap(cls, items, **attrs):
 
 # ------------------------------------------------------------------------------------------------ nuclide tables
 class Nuc:
-    """a nuclide base as the blueprint code sees it: name, weight, abundance, a, trans, decays, element"""
+    """a nuclide base as the blueprint code sees it: name, weight, abundance, a, trans, decays, element; like the real ones
+    two are equal iff they denote the same nuclide"""
+
+    def __eq__(self, other):
+        return self.name == other.name
+
+    def __hash__(self):
+        return hash(self.name)
 
 
 W = {"U235": 235.0439299, "U238": 238.0507882, "O16": 15.9949146}
@@ -290,3 +300,162 @@ def inconsistent_isotopic_input_is_refused(case: int, a: float, b: float, rho: f
         except ValueError:
             bad = True
         assert bad == (rho < 0), "negative density refused"
+
+
+# ------------------------------------------------------------------------------------------------ elements -> isotopes
+def nuc(name, a=1, trans=(), decays=(), element=None):
+    return new(Nuc, name=name, weight=WT.get(name, 1.0), abundance=ABN.get(name, 0.0), a=a, trans=list(trans), decays=list(decays),
+               element=element)
+
+
+U5 = nuc("U235", 235)
+U8 = nuc("U238", 238)
+O16 = nuc("O16", 16)
+# the element U: natural isotopes U235 and U238, plus its own NaturalNuclideBase entry (a = 0) that getNaturalIsotopics leaves out
+EL_U = new(Element, symbol="U", z=92, name="uranium", nuclides=[nuc("U", 0), U5, U8])
+BYNAME = {"U235": U5, "U238": U8, "O16": O16}
+BYSYMBOL = {"U": EL_U}
+TAB = {"armi.reactor.blueprints.isotopicOptions:yamlize": "YZ", "armi.reactor.blueprints.isotopicOptions:ALLOWED_KEYS": "KEYS",
+       "armi.reactor.blueprints.isotopicOptions:materials": "MATS", "armi.nucDirectory.nuclideBases:byName": "BYNAME",
+       "armi.nucDirectory.elements:bySymbol": "BYSYMBOL"}
+
+
+@lemma(overrides=TAB, stubs=WST, gen={"a": (0.0, 1.0)})
+def element_in_custom_isotopics_is_expanded_to_its_natural_isotopes(a: float):
+    """CustomIsotopic._expandElementMassFracs + densityTools.expandElementalMassFracsToNuclides / expandElementalNuclideMassFracs
+    + Element.getNaturalIsotopics: an element entry (U) is replaced by its natural isotopes, its mass fraction split in the
+    ratio abundance x weight (abundances are atom fractions), the total and every other entry unchanged; a name that is
+    neither nuclide nor element is refused.  Tables: stand-ins BYNAME / BYSYMBOL, arbitrary positive weights and abundances."""
+    weights_positive()
+    assume(ABN["U235"] > 0 and ABN["U238"] > 0 and 0 <= a <= 1)
+    ci = ymap(CustomIsotopic, [], name="UO", inputFormat="mass fractions", _density=None, _computedDensity=None)
+    ci["U"] = a
+    ci["O16"] = 1.0 - a
+    ci._initializeMassFracs()
+    ci._expandElementMassFracs()
+    mf = ci.massFracs
+    assert set(mf.keys()) == {"U235", "U238", "O16"}, "the element is gone, its isotopes are there"
+    assert eq(mf["O16"], 1.0 - a)
+    assert eq(mf["U235"] + mf["U238"], a), "the element's mass fraction is conserved"
+    assert eq(mf["U235"] * ABN["U238"] * WT["U238"], mf["U238"] * ABN["U235"] * WT["U235"]), "split by abundance x weight"
+    ci.massFracs = {"U235": 0.5, "XX": 0.5}
+    assert refused(ci._expandElementMassFracs), "unknown name refused"
+
+
+NuclideFlags = repo("armi.reactor.blueprints.isotopicOptions:NuclideFlags")
+compBp = repo("armi.reactor.blueprints.componentBlueprint")
+
+
+class Bp:
+    """the root Blueprints object as component construction sees it: elementsToExpand, nuclideFlags, customIsotopics,
+    allNuclidesInProblem, activeNuclides"""
+
+
+@lemma(overrides=TAB, stubs=WST, gen={"a": (0.0, 1.0), "sub": (0, 3)})
+def flagged_element_is_expanded_on_the_material(a: float, sub: int):
+    """componentBlueprint.expandElementals (+ densityTools.expandElementalMassFracsToNuclides): an element flagged for expansion
+    is replaced on the material by its natural isotopes - or by the `expandTo` subset of its nuclide flag, scaled so that the
+    element's mass fraction is conserved; elements the material does not contain are skipped.  Stand-ins: Bp, Mat, tables."""
+    weights_positive()
+    assume(ABN["U235"] > 0 and ABN["U238"] > 0 and 0 <= a <= 1)
+    sub = choose(sub, 0, 3)
+    expandTo = (None, [], ["U238"], ["U238", "U235"])[sub]
+    flags = ymap(NuclideFlags, [("U", NuclideFlag("U", False, True, expandTo))])
+    elO = new(Element, symbol="O", z=8, name="oxygen", nuclides=[O16])
+    bp = new(Bp, elementsToExpand=[elO, EL_U], nuclideFlags=flags)
+    m = new(Mat, massFrac={"U": a, "O16": 1.0 - a})
+    compBp.expandElementals(m, bp)
+    mf = m.massFrac
+    assert eq(mf["O16"], 1.0 - a) and "U" not in mf and "O" not in mf
+    if sub == 2:
+        assert set(mf.keys()) == {"U238", "O16"} and eq(mf["U238"], a), "only the requested isotope, carrying all of the element"
+    else:
+        assert set(mf.keys()) == {"U235", "U238", "O16"}
+        assert eq(mf["U235"] + mf["U238"], a), "the element's mass fraction is conserved"
+        assert eq(mf["U235"] * ABN["U238"] * WT["U238"], mf["U238"] * ABN["U235"] * WT["U235"]), "split by abundance x weight"
+
+
+# ------------------------------------------------------------------------------------------------ component material
+class FuelMat:
+    """a library fuel material (stand-in): default composition U235 0.25 / U238 0.75; applyInputParams accepts U235_wt_frac
+    (sets the U235 entry) and customIsotopics (recorded), nothing else - python raises TypeError for other keywords"""
+
+    def __init__(self):
+        self.massFrac = {"U235": 0.25, "U238": 0.75}
+        self.seen = None
+        self.calls = 0
+
+    def applyInputParams(self, U235_wt_frac=None, customIsotopics=None):
+        self.calls = self.calls + 1
+        self.seen = customIsotopics
+        if U235_wt_frac is not None:
+            self.massFrac["U235"] = U235_wt_frac
+
+
+class MATS2:
+    """armi.materials as componentBlueprint uses it"""
+
+    Custom = RealCustom
+
+    @staticmethod
+    def resolveMaterialClassByName(name):
+        return {"FuelMat": FuelMat}[name]
+
+
+COMP = {"armi.reactor.blueprints.isotopicOptions:yamlize": "YZ", "armi.reactor.blueprints.isotopicOptions:ALLOWED_KEYS": "KEYS",
+        "armi.reactor.blueprints.isotopicOptions:materials": "MATS", "armi.nucDirectory.nuclideBases:byName": "BYNAME",
+        "armi.nucDirectory.elements:bySymbol": "BYSYMBOL", "armi.reactor.blueprints.componentBlueprint:yamlize": "YZ",
+        "armi.reactor.blueprints.componentBlueprint:materials": "MATS2"}
+
+
+def blueprint_with_isotopics(a, b, known=("U235", "U238", "O16")):
+    ci = isotopic("mass fractions", None, [a, b, 1.0 - a - b])
+    ci._initializeMassFracs()
+    return new(Bp, allNuclidesInProblem=list(known), customIsotopics=ymap(CustomIsotopics, [("MOX", ci)]), elementsToExpand=[],
+               nuclideFlags=ymap(NuclideFlags, []))
+
+
+@lemma(overrides=COMP, stubs=WST, gen={"a": (0.0, 0.5), "b": (0.0, 0.5), "e": (0.0, 1.0), "useIso": [True, False], "mod": (0, 2)})
+def material_gets_isotopics_first_then_the_modifications(a: float, b: float, e: float, useIso: bool, mod: int):
+    """ComponentBlueprint._constructMaterial (+ CustomIsotopics.apply, CustomIsotopic.apply, expandElementals): the material is
+    made with its defaults, then takes the named custom isotopics, then the material modifications - so a modification has
+    the final word; the material is shown all custom isotopics; without modifications applyInputParams is not called; a
+    modification only OTHER materials know is skipped without error.  Stand-ins: FuelMat, MATS2, Bp."""
+    assume(a >= 0 and b >= 0 and a + b <= 1)
+    mod = choose(mod, 0, 2)
+    bp = blueprint_with_isotopics(a, b)
+    cb = new(ComponentBlueprint, name="fuel", material="FuelMat", isotopics="MOX" if useIso else None)
+    mods = [{}, {"U235_wt_frac": e}, {"TD_frac": e}][mod]
+    m = cb._constructMaterial(bp, mods)
+    assert isinstance(m, FuelMat)
+    base = {"U235": a, "U238": b, "O16": 1.0 - a - b} if useIso else {"U235": 0.25, "U238": 0.75}
+    if mod == 1:
+        base["U235"] = e
+    assert len(m.massFrac) == len(base)
+    for k in base:
+        assert eq(m.massFrac[k], base[k]), "defaults, overridden by the isotopics, overridden by the modification"
+    if mod == 0:
+        assert m.calls == 0
+    if mod == 1:
+        assert m.calls == 1 and set(m.seen.keys()) == {"MOX"} and m.seen["MOX"] == bp.customIsotopics["MOX"].massFracs
+
+
+@lemma(overrides=COMP, stubs=WST, gen={"a": (0.0, 0.5), "b": (0.0, 0.5), "case": (0, 2)})
+def inconsistent_component_material_input_is_refused(a: float, b: float, case: int):
+    """_constructMaterial / CustomIsotopics.apply: custom isotopics that are not defined (KeyError) and a composition with
+    a nuclide that is not among the nuclides of the problem (ValueError) are refused."""
+    assume(a >= 0 and b >= 0 and a + b <= 1)
+    case = choose(case, 0, 2)
+    if case == 0:
+        bp = blueprint_with_isotopics(a, b)
+        cb = new(ComponentBlueprint, name="fuel", material="FuelMat", isotopics="THOX")
+        try:
+            cb._constructMaterial(bp, {})
+            r = False
+        except KeyError:
+            r = True
+        assert r, "unknown custom isotopics name"
+    else:
+        bp = blueprint_with_isotopics(a, b, known=("U235", "U238"))
+        cb = new(ComponentBlueprint, name="fuel", material="FuelMat", isotopics="MOX" if case == 1 else None)
+        assert refused(lambda: cb._constructMaterial(bp, {})) == (case == 1), "O16 is in the composition but not in the problem"
